@@ -144,37 +144,27 @@ Theorem C14_temperature_reader_local : forall rows cols ws size,
 Proof. exact t_mm_read_local. Qed.
 Print Assumptions C14_temperature_reader_local.
 
-(* TEMPERATURE: "every accepted prefix presents whole steps of the file" is REFUTED for the faithful reader model:
-   the prefix holding exactly the first TWO records (surface record and first layer record of step 0) of EVERY readable
-   file is accepted and presented as two time steps without layers, the layer record posing as a second surface field
-   (the for loop over the time stamps falls through with i = last index). Replays on the library: known finding
-   C14-temperature-prefix-fabricated (region 14). *)
-Theorem C14_temperature_two_record_prefix_refuted : forall c, t_wf c = true -> t_readable c = true ->
-  t_mm_read (t_ny c) (t_nx c) (firstn (Z.to_nat (8 * t_rec_words c / 4)) (t_enc c)) (8 * t_rec_words c)
-  = Ok (t_two_record_view c).
-Proof. exact t_two_record_prefix. Qed.
-Print Assumptions C14_temperature_two_record_prefix_refuted.
-
-(* the strongest true form: the accepted cuts and what is presented there, EXACTLY: that one fabricated prefix, and the
-   prefixes of k >= 2 whole steps, which present exactly the first k steps *)
-Theorem C14_temperature_accepts_iff : forall c size v, t_wf c = true -> t_readable c = true ->
+(* TEMPERATURE (reader as repaired by 9020b2c: for/else raises when no record carries a later time stamp): for EVERY
+   readable file and EVERY cut, opening and reading either raises or the cut is exactly k >= 2 whole steps and exactly
+   the first k steps are presented. (Before the repair the prefix holding exactly the first two records was accepted with
+   fabricated content: former finding C14-temperature-prefix-fabricated, now a corpus case.) *)
+Theorem C14_temperature_every_prefix : forall c size, t_wf c = true -> t_readable c = true ->
   0 <= size <= 4 * Z.of_nat (length (t_enc c)) ->
-  (t_mm_read (t_ny c) (t_nx c) (firstn (Z.to_nat (size / 4)) (t_enc c)) size = Ok v <->
-   (size = 8 * t_rec_words c /\ v = t_two_record_view c) \/
-   exists k, (2 <= k <= length (t_steps c))%nat /\ size = 4 * (Z.of_nat k * t_step_words c) /\
-             v = t_view_of (t_truncate_steps k c)).
-Proof. exact t_mm_read_accepts_iff. Qed.
-Print Assumptions C14_temperature_accepts_iff.
-
-(* the property on the exact sub-domain where it holds: every cut other than the two-record one *)
-Theorem C14_temperature_every_prefix_partial : forall c size, t_wf c = true -> t_readable c = true ->
-  0 <= size <= 4 * Z.of_nat (length (t_enc c)) -> size <> 8 * t_rec_words c ->
   t_mm_read (t_ny c) (t_nx c) (firstn (Z.to_nat (size / 4)) (t_enc c)) size = Err \/
   exists k, (2 <= k <= length (t_steps c))%nat /\ size = 4 * (Z.of_nat k * t_step_words c) /\
             t_mm_read (t_ny c) (t_nx c) (firstn (Z.to_nat (size / 4)) (t_enc c)) size
             = Ok (t_view_of (t_truncate_steps k c)).
-Proof. exact t_mm_read_prefix_partial. Qed.
-Print Assumptions C14_temperature_every_prefix_partial.
+Proof. exact t_mm_read_prefix. Qed.
+Print Assumptions C14_temperature_every_prefix.
+
+(* the strongest true form: the accepted cuts and what is presented there, EXACTLY *)
+Theorem C14_temperature_accepts_iff : forall c size v, t_wf c = true -> t_readable c = true ->
+  0 <= size <= 4 * Z.of_nat (length (t_enc c)) ->
+  (t_mm_read (t_ny c) (t_nx c) (firstn (Z.to_nat (size / 4)) (t_enc c)) size = Ok v <->
+   exists k, (2 <= k <= length (t_steps c))%nat /\ size = 4 * (Z.of_nat k * t_step_words c) /\
+             v = t_view_of (t_truncate_steps k c)).
+Proof. exact t_mm_read_accepts_iff. Qed.
+Print Assumptions C14_temperature_accepts_iff.
 
 (* HEIGHT/PRESSURE: full strength *)
 Theorem C14_heightpres_reader_local : forall rows cols ws size,
@@ -205,6 +195,6 @@ Example C14_temperature_cuts :
                  TStep 1133903872 4001 [21; 22] [[23; 24]; [25; 26]]] |} in
   t_wf c = true /\ t_readable c = true /\ t_rec_words c = 6 /\ t_step_words c = 18
   /\ t_mm_read 1 2 (firstn 18 (t_enc c)) 72 = Err            (* one whole step *)
-  /\ (exists v, t_mm_read 1 2 (firstn 12 (t_enc c)) 48 = Ok v /\ tv_ntimes v = 2 /\ tv_nz v = 0 /\ tv_surf v = [[1; 2]; [3; 4]])
+  /\ t_mm_read 1 2 (firstn 12 (t_enc c)) 48 = Err            (* the first two records (accepted before 9020b2c) *)
   /\ (exists v, t_mm_read 1 2 (firstn 36 (t_enc c)) 144 = Ok v /\ tv_ntimes v = 2 /\ tv_nz v = 2).
 Proof. vm_compute. repeat split; try reflexivity; eexists; repeat split; reflexivity. Qed.
